@@ -15,7 +15,9 @@ EXPLANATION = (
   "differs only in Python type from its decoded stored form (tuple vs list, int vs float) is not "
   "emitted; (R3) database values are decoded by unmarshalling exactly bytes and delegating to "
   "decode_object, all other values passing through; equal_encoding counts two NaN floats as equal "
-  "on every path they can take (part of R2). Codec agreement is C24's. Not decided: the "
+  "on every path they can take (part of R2); a data column's set() stores the value it is given "
+  "on every path -- it may skip the store only on a type-distinguishing comparison (strict_equal "
+  "/ equal_encoding), never on a plain == with the stored value (R4). Codec agreement is C24's. Not decided: the "
   "fixed point itself (that Calculate emits nothing after a reload).")
 
 
@@ -29,7 +31,7 @@ def check(run, repo, tier):
   # helper keep their place
   import os
   _HERE = os.path.dirname(os.path.abspath(__file__))
-  decide(run, repo, [r1_loader, r2_compare_twice, r3_decode],
+  decide(run, repo, [r1_loader, r2_compare_twice, r3_decode, r4_set_stores],
          anchors_of(os.path.join(_HERE, "c07.py"), os.path.join(_HERE, "_h_E.py"), os.path.join(_HERE, "../events.py")))
 
 
@@ -487,6 +489,58 @@ def r3_decode(run, w):
            "tables arriving from Node are decoded before loading", ok, fi=f.fi, node=c)
 
 
+TYPE_AWARE_EQ = ("strict_equal", "equal_encoding")
+
+
+def r4_set_stores(run, w):
+  R4 = run.rule("C07-R4", "every set() of a data column class stores the value on every normal "
+                "path; skipping the store is allowed only on strict_equal / equal_encoding", floor=4)
+  col_mod = w.repo.module("column")
+  for ci in sorted(col_mod.classes.values(), key=lambda c: c.qualname):
+    m = ci.methods.get("set")
+    if m is None or not w.typer.is_column(ci.qualname) or len(m.params()) != 3:
+      continue
+    fn = w.fn_of(m)
+    cfg = fn.cfg
+    flow = Flow(fn)
+    stores = set()
+    for n in cfg.nodes:
+      if n.kind == "stmt" and isinstance(n.stmt, (ast.Assign, ast.AugAssign)):
+        tg = n.stmt.targets if isinstance(n.stmt, ast.Assign) else [n.stmt.target]
+        if any(isinstance(t, ast.Subscript) and endswith(cname(fn, t.value) or "", "_data")
+               for t in tg):
+          stores.add(n.id)
+    for (n, c, nm) in calls_E(fn):
+      if isinstance(c.func, ast.Attribute) and c.func.attr == "set" and \
+          isinstance(c.func.value, ast.Call) and dotted(c.func.value.func) == "super":
+        stores.add(n.id)
+      elif isinstance(c.func, ast.Attribute) and c.func.attr == "set" and \
+          isinstance(c.func.value, ast.Name) and c.func.value.id in \
+          [b.split(".")[-1] for b in ci.base_names if b]:
+        stores.add(n.id)       # BaseColumn.set(self, ...)
+    if not stores:
+      raise AnalysisError("%s: no store (self._data[...] = / super().set) recognised" % m.qualname)
+    def type_aware(e, i):
+      e = flow.resolve(e, i)[0]
+      return isinstance(e, ast.Call) and (dotted(e.func) or "").split(".")[-1] in TYPE_AWARE_EQ
+    allowed = flow.edges_where(type_aware, True)
+    seen, todo = set(), [cfg.entry.id]
+    while todo:
+      x = todo.pop()
+      if x in seen or x in stores:
+        continue
+      seen.add(x)
+      todo.extend(y for y in cfg.succ[x] if (x, y) not in allowed)
+    ok = cfg.exit.id not in seen
+    wit = None
+    if not ok:
+      wit = cfg.describe_path(cfg.path(cfg.entry.id, {cfg.exit.id}, removed=stores))
+    run.ob(R4, m.qualname, "set(row_id, value): store on every path",
+           "a value given to set() reaches the column's storage (so what is saved and reloaded is "
+           "what was set); an equal-looking value of another type is not mistaken for the stored one",
+           ok, witness=wit, fi=m)
+
+
 EN = "sandbox/grist/engine.py"
 VARIANTS = [
   ("load-skips-clear-for-missing", EN, """    for column in table.all_columns.values():
@@ -517,6 +571,23 @@ VARIANTS = [
 """, "C07-R2"),
   ("equal-encoding-nan-unequal", "sandbox/grist/objtypes.py",
    "    return a == b or (isnan(a) and isnan(b))", "    return a == b", "C07-R2"),
+  ("ref-set-skips-equal-value", "sandbox/grist/column.py",
+   """    old = self.safe_get(row_id)
+    super(BaseReferenceColumn, self).set(row_id, self._clean_up_value(value))""",
+   """    value = self._clean_up_value(value)
+    if value == self.raw_get(row_id):
+      return
+    old = self.safe_get(row_id)
+    super(BaseReferenceColumn, self).set(row_id, value)""", "C07-R4"),
+  ("position-set-skips-default", "sandbox/grist/column.py",
+   """    self._sorted_rows.discard(row_id)
+    super(PositionColumn, self).set(row_id, value)
+    if value != self.getdefault():""",
+   """    self._sorted_rows.discard(row_id)
+    if value == self.getdefault():
+      return
+    super(PositionColumn, self).set(row_id, value)
+    if value != self.getdefault():""", "C07-R4"),
   ("compare-before-convert", EN, """          value = col.convert(value)
           previous = col.raw_get(row_id)
           if not strict_equal(value, previous):""", """          previous = col.raw_get(row_id)
